@@ -218,6 +218,7 @@ class Interp:
         self.facts = facts
         self.max_depth = max_depth
         self.extern = extern or {}   # callee path suffix -> python callable(args)->value
+        self._extern_cache = {}
         self.max_loop = 64
         self.lets = {}                       # optional: facts.let_table(body) of the function a fragment is taken from
         self.reverse_hash_order = False      # iterate hash containers backwards (exposes dependence on hash order)
@@ -628,8 +629,17 @@ class Interp:
         if cal is None:
             raise Unknown("indirect call")
         args = e.get("args", [])
-        for suf, fn in self.extern.items():
-            if cal.endswith(suf) or gen.endswith(suf):
+        ck = (cal, gen)
+        hit = self._extern_cache.get(ck, 0)
+        if hit == 0:
+            hit = None
+            for suf, fn_ in self.extern.items():
+                if cal.endswith(suf) or gen.endswith(suf):
+                    hit = suf
+                    break
+            self._extern_cache[ck] = hit
+        for suf, fn in (((hit, self.extern[hit]),) if hit is not None else ()):
+            if True:
                 vals = []
                 for a in args:
                     try:
@@ -823,7 +833,7 @@ class Interp:
                 return max(lo, a0 - rest[0])
             if m == "pow":
                 return a0 ** rest[0]
-        if gen in ("core::cmp::Ord::max", "core::cmp::Ord::min"):
+        if gen in ("core::cmp::Ord::max", "core::cmp::Ord::min", "core::cmp::max", "core::cmp::min"):
             a0, b0 = self.ev(args[0], env, depth), self.ev(args[1], env, depth)
             if isinstance(a0, (int, float)) and isinstance(b0, (int, float)):
                 return max(a0, b0) if gen.endswith("max") else min(a0, b0)
